@@ -418,6 +418,15 @@ func checkDoc(res *lib.Result, drv *lib.Drv, real bool, c docCase, rng *lib.Rand
 		return
 	}
 	o := runDoc(c)
+	if (o.encErr != nil && strings.HasPrefix(o.encErr.Error(), "TIMEOUT")) || (o.decErr != nil && strings.HasPrefix(o.decErr.Error(), "TIMEOUT")) {
+		// a genuine hang reproduces; a stall of a heavily loaded machine does not
+		o2 := runDoc(c)
+		if !((o2.encErr != nil && strings.HasPrefix(o2.encErr.Error(), "TIMEOUT")) || (o2.decErr != nil && strings.HasPrefix(o2.decErr.Error(), "TIMEOUT"))) {
+			o = o2
+			encx.Stuck--
+			res.Hit("doc.retried-after-timeout")
+		}
+	}
 	key, _ := json.Marshal(c)
 	res.Count(string(key), true)
 	res.Hit("doc.cipher=" + map[string]string{"": "default", "AES-GCM": "AES-GCM", "CHACHA20-POLY1305": "CHACHA20-POLY1305"}[c.Cipher])
